@@ -16,7 +16,8 @@ from .c02 import rot_from_quat, quat_floats, QN
 FUNCS = ['epsilon_to_b', 'b_to_epsilon', 'epsilon_to_b_old', 'b_to_epsilon_old', 'ubi_to_u_and_eps', 'u_to_ubi', 'form_b_mat', 'form_a_mat',
          'form_a_mat_inv', 'a_to_cell', 'b_to_cell', 'ubi_to_cell']
 META = {
-    'explanation': 'Real strain functions executed on a symbolic unstrained cell and either six free strain components (new pair) or a second '
+    'explanation': 'Array arguments: the strain is handed to epsilon_to_b as an array; the array must be unchanged afterwards, a second call with the same array object must return the same B, b_to_epsilon must leave its B array unchanged. '
+                   'Real strain functions executed on a symbolic unstrained cell and either six free strain components (new pair) or a second '
                    'symbolic cell playing the strained lattice (radical-free parametrisation of the inverse maps: every upper-triangular B with '
                    'positive diagonal is form_b_mat of exactly one cell).  Oracle written in the harness: eps(B) = sym(B0.inv(B)) - I, '
                    'eps_old = sym(A.inv(A0)) - I.  ubi_to_u_and_eps is driven with UBI = kappa.inv(U.B) (the module\'s own u_to_ubi convention).',
